@@ -86,6 +86,13 @@ class CallMixin:
             if name in om:
                 return self.static_val(BoundBuiltin(f'oracle.{c.name}.{name}', obj))
             return self.read_data_attr(obj, c, name, node)
+        lk0 = c.lookup(name)
+        if lk0 is not None and lk0[0] == 'method' and lk0[1].cls is not None and \
+                any('abstractmethod' in ast.unparse(d) for d in lk0[1].decorators):
+            om = getattr(self, 'oracle_methods', {}).get(lk0[1].cls.name, {})
+            if name in om:
+                # abstract in the declared class: whatever subclass implements it is user / backend code
+                return self.static_val(BoundBuiltin(f'oracle.{lk0[1].cls.name}.{name}', obj))
         groups = self.member_groups(c, name)
         if len(groups) > 1:
             keys = list(groups)
@@ -102,6 +109,12 @@ class CallMixin:
         lk = groups[key][0]
         if lk is not None and lk[0] == 'method':
             fi: FuncInfo = lk[1]
+            if any('abstractmethod' in ast.unparse(d) for d in fi.decorators):
+                # an abstract method implemented by user code (e.g. the transport): abstract callable
+                om = getattr(self, 'oracle_methods', {}).get(fi.cls.name, {})
+                if name in om:
+                    return self.static_val(BoundBuiltin(f'oracle.{fi.cls.name}.{name}', obj))
+                self.unsupported(f'call of abstract method {fi.qualname} without a user contract', node)
             if fi.kind == 'property':
                 return self.call_function(fi, [obj], {})
             if fi.kind == 'classmethod':
